@@ -174,7 +174,14 @@ Definition tb_eqb (a b : tb) : bool :=
 
 (* ---- a live exception as the interpreter reports it ------------------------------ *)
 (* One traceback entry as traceback.extract_tb reports it: file, line number,
-   code name, and the raw text of that line from linecache (empty if unavailable). *)
+   code name, and the raw text of that line from linecache (empty if unavailable).
+   linecache is an oracle of (file name, module globals, time): the text may be reachable
+   only through the __loader__ of the frame's globals (zip imports, get_source loaders) and
+   changes when files change; [lv_raw] is its value for THIS frame's globals at the moment
+   of observation.  Callpoint.from_tb/from_frame are modelled as consulting that same
+   value (they hand the frame's globals to _DeferredLine, which revalidates on every read);
+   the correspondence run checks exactly this, with tbutils observed before anything else
+   has filled the cache. *)
 Record live_frame := mkLive { lv_file : str; lv_lineno : N; lv_name : str; lv_raw : str }.
 (* the exception: __module__, __qualname__, __name__ of its type; str(value) (None if
    __str__ raised); and the text the interpreter shows for the exception alone
